@@ -5,6 +5,7 @@
 id=$1; sub=${2:-.}; quick=${3:-}
 S=/verif/seeded/$id
 W=/tmp/confirm/$id
+flags=$(cat $S/DEMO_FLAGS 2>/dev/null)   # e.g. -race for demonstrations whose detector is the race detector
 export GOPROXY=off GOSUMDB=off GOTOOLCHAIN=local
 rm -rf $W; mkdir -p /tmp/confirm
 git -C /repo worktree add --detach $W HEAD >/dev/null 2>&1 || { echo "worktree failed"; exit 2; }
@@ -12,11 +13,11 @@ log=$S/confirm.log; : > $log
 cd $W
 cp $S/demo_test.go $W/$sub/zz_seed_demo_test.go
 echo "== demo on clean tree ($(git rev-parse --short HEAD))" >> $log
-(cd $W/$sub && go test -vet=off -count=1 -run "${DEMO_RUN:-.*[Dd]emo.*|TestC[0-9]+.*}" . 2>&1 | tail -5) >> $log
+(cd $W/$sub && go test $flags -vet=off -count=1 -run "${DEMO_RUN:-.*[Dd]emo.*|TestC[0-9]+.*}" . 2>&1 | tail -5) >> $log
 clean_rc=$(tail -5 $log | grep -c "^ok")
 git apply $S/patch.diff || { echo "patch does not apply" >> $log; }
 echo "== demo with patch" >> $log
-(cd $W/$sub && go test -vet=off -count=1 -run "${DEMO_RUN:-.*[Dd]emo.*|TestC[0-9]+.*}" . 2>&1 | grep -v "^\s" | tail -8) >> $log
+(cd $W/$sub && go test $flags -vet=off -count=1 -run "${DEMO_RUN:-.*[Dd]emo.*|TestC[0-9]+.*}" . 2>&1 | grep -v "^\s" | tail -8) >> $log
 rm -f $W/$sub/zz_seed_demo_test.go
 if [ -z "$quick" ]; then
 echo "== suite with patch" >> $log
